@@ -71,7 +71,9 @@ func echoStatus(p []byte) *grpc_testing.EchoStatus {
 	if len(p) == 0 {
 		return nil
 	}
-	return &grpc_testing.EchoStatus{Code: int32(p[0]) - 100, Message: "st-" + strconv.Itoa(len(p))}
+	// (the message ends in text drawn from JSON-structural characters: quotes,
+	// braces, backslashes - also as the very last character of the string)
+	return &grpc_testing.EchoStatus{Code: int32(p[0]) - 100, Message: "st-" + strconv.Itoa(len(p)) + textOf(p[max(0, len(p)-4):])}
 }
 
 func respParams(p []byte) []*grpc_testing.ResponseParameters {
